@@ -158,6 +158,12 @@ func checkC03(w *Worker) {
 			mode := x.Choose(len(balModes), "input:mode")
 			single := x.Choose(2, "input:single")
 			pass := x.Choose(passes, "input:pass")
+			// the element asked for: a plain name, or a name that is a category path itself (logged directly it takes its
+			// place in the tree like any other food)
+			elx := "X"
+			if single == 1 && x.Choose(2, "input:element-is-a-path") == 1 {
+				elx = "a/X/y"
+			}
 			idxs := pickSubset(x)
 			// log
 			names := []string{}
@@ -198,17 +204,17 @@ func checkC03(w *Worker) {
 				}
 				// foods 4 and 10 (and the last one) are in the book but hold no X at all: they must not appear under -s X
 				if i != len(universe)-1 && i != 4 && i != 10 {
-					r.Ings = append(r.Ings, absIng{"X", c03Coef[i%len(c03Coef)]})
+					r.Ings = append(r.Ings, absIng{elx, c03Coef[i%len(c03Coef)]})
 				}
 				book = append(book, r)
 			}
 			if single == 1 && len(idxs)%2 == 0 {
 				// X itself logged directly on even passes of even subsets
-				lg[0].Entries = append(lg[0].Entries, absIng{"X", 3})
-				names = append(names, "X")
-				qty["X"] = rat(3)
+				lg[0].Entries = append(lg[0].Entries, absIng{elx, 3})
+				names = append(names, elx)
+				qty[elx] = rat(3)
 			}
-			balCheck(x, mode, single, pass, "X", book, lg, names, qty)
+			balCheck(x, mode, single, pass, elx, book, lg, names, qty)
 		}
 	}
 	// balCheck: one balance run (mode, all foods or a single element el) on book + log, where names are the distinct
